@@ -335,6 +335,7 @@ inductive OpEv where
   | wmark (sender : String) (wm : Int)
   | redeploy (store : Store) (ids : List String)   -- `HandleDeploy` on the same operator: fresh DB, timer store and registry
   | complete (sender : String)                     -- `SourceComplete` of a runner
+  | barrier                                        -- the last checkpoint barrier of an alignment arrives
 deriving Repr
 
 /-- `HandleDeploy`: `timerRegistry = NewTimerRegistry(NewTimerStore(db, ...), req.SourceRunnerIds)`; the event batcher
@@ -346,11 +347,16 @@ registry's upstream map is untouched, so the completed runner's latest watermark
 (the operator stops once no runner is active: histories end there) -/
 def Op.complete (o : Op) (_sender : String) : Op × List Req := o.flush
 
+/-- `handleCheckpointBarrier` once all barriers are there: the pending batch is flushed, then the DB is checkpointed
+(the DB content at that moment is `(o.barrier).1.reg.store.db`; restoring it is `Op.redeploy` over that content) -/
+def Op.barrier (o : Op) : Op × List Req := o.flush
+
 def Op.step (o : Op) : OpEv → Op × List Req
   | .keyed k ts => o.keyed k ts
   | .wmark s v => o.watermark s v
   | .redeploy st ids => (o.redeploy st ids, [])
   | .complete s => o.complete s
+  | .barrier => o.barrier
 
 def Op.runState (o : Op) : List OpEv → Op
   | [] => o
@@ -363,5 +369,6 @@ def epochOf : List String × List (String × Int) → List OpEv → List String 
   | (ids, ms), .wmark s v :: es => epochOf (ids, ms ++ [(s, v)]) es
   | _, .redeploy _ ids :: es => epochOf (ids, []) es
   | s, .complete _ :: es => epochOf s es     -- a completed runner's reports still count
+  | s, .barrier :: es => epochOf s es
 
 end Rxn.Timers
